@@ -248,12 +248,31 @@ def run_witnesses(ctx, info, cov):
     cov["schema_gen_witnesses"] = out
 
 
-def replay_witness(rep):
-    """re-run a witness replay object; True iff the property holds now (the difference is gone)"""
-    name = rep.get("name", "")
-    if name == "template-empty":
-        ok, _, _ = w_template_empty()
-        return not ok
+def replay(rep):
+    """re-run a replay object written by this module (`rep` = the "replay" member of the replay file); True iff the
+    property holds on it now.  kinds: "witness" (a constructible value its own reader rejects), "struct-bytes" (an
+    accepted child sequence that is not stable under decode-encode-decode)"""
+    IC.quiet()
+    if rep.get("kind") == "witness":
+        if rep.get("name") == "template-empty":
+            ok, desc, _ = w_template_empty()
+            print(desc)
+            return not ok
+        print("witness %r documents a reader/writer difference that is not a round-trip violation" % rep.get("name"))
+        return True
+    if rep.get("kind") == "struct-bytes":
+        lib = IC.Library()
+        cands = [c for k, (c, own) in sorted(lib.classes.items()) if c.__name__ == rep["class"]]
+        if not cands:
+            print("class %s not found" % rep["class"])
+            return True
+        vn = rep["version"]
+        if isinstance(vn, str):
+            vn = int(vn.replace(".", ""))
+        verdict, detail = ded(cands[0], bytes.fromhex(rep["hex"]), vn)
+        print("decode-encode-decode on %s under KMIP %s: %s %s" % (rep["class"], VNUM.get(vn, vn), verdict, detail or ""))
+        return verdict != "unstable"
+    print("unknown replay kind")
     return True
 
 
@@ -355,3 +374,68 @@ def run(ctx, struct_run, rng, budget_s=None):
     run_witnesses(ctx, info, cov)
     cov["schema_gen_wall_s"] = round(time.time() - t0, 1)
     return cov
+
+
+# ---------------------------------------------------------------------------------------------------------
+# when the Lean side broke (KmipModel.Props.C01Gen does not build on the regenerated tables): failing-input search
+# ---------------------------------------------------------------------------------------------------------
+
+def table_differences(report_path=None):
+    """(class, what) rows where the regenerated read and write field lists differ, read from schemas_report.json (the
+    translator's side file: available even when the Lean build is broken)"""
+    report_path = report_path or os.path.join(os.path.dirname(os.path.abspath(__file__)), "..", "..", "lean", "KmipModel",
+                                              "Gen", "schemas_report.json")
+    rep = json.load(open(report_path))
+    rows = []
+    for c in rep["classes"]:
+        key = lambda f: (f["tag"], f["kind"], f["card"], f["vmin"], f["vmax"], f["slot"], f["at_least_one"])  # noqa: E731
+        R, W = [key(f) for f in c["R"]], [key(f) for f in c["W"]]
+        if R != W or c["read_class_min"] != c["write_class_min"]:
+            diff = [{"read": a, "write": b} for a, b in zip(R, W) if a != b]
+            if len(R) != len(W):
+                diff.append({"read_fields": len(R), "write_fields": len(W)})
+            rows.append((c["name"], diff))
+    return rows, rep
+
+
+def search(ctx, struct_run, rng, max_examples=40):
+    """the implementation-only monitors on the classes whose regenerated read and write tables differ (all of them if
+    the difference cannot be read off): every example under every version must survive decode(encode(x)) and
+    re-encode to the same bytes; every accepted child-level neighbour must be stable under decode-encode-decode.
+    Returns the number of monitor evaluations; violations are reported through ctx.report with their bytes."""
+    IC.quiet()
+    rows, rep = table_differences()
+    suspects = [n for n, _ in rows] or [c["name"] for c in rep["classes"]]
+    suspects += [u["name"] for u in rep.get("unrecognised_classes", []) if u["name"] not in suspects]
+    byname = {}
+    for key, (c, own) in struct_run.lib.classes.items():
+        byname.setdefault(c.__name__, []).append((key, c))
+    n = 0
+    for name in suspects:
+        for key, cls in byname.get(name, []):
+            exs = struct_run.lib.examples.get(key, [])
+            idx = list(range(len(exs)))
+            rng.shuffle(idx)
+            stats, emitted = {}, []
+            for i in idx[:max_examples]:
+                o, v, origin = exs[i]
+                mode = "incomplete" if origin.startswith("engine-built-request") else "strict"
+                for f in CC.check_instance(copy.deepcopy(o), name, mode,
+                                           {"kind": "struct", "class": key, "origin": origin, "derive": None,
+                                            "seed_version": IC.vname(v) if v else None}, stats, emitted):
+                    ctx.report(f.signature, f.what, f.replay)
+                n += 1
+            if name in CC.MESSAGE_CLASSES:
+                continue
+            for (cn, vn, d, b, acc, st) in CC.schema_cases(struct_run, [name], rng, ctx.tier):
+                if acc and st is not True:
+                    n += 1
+                    verdict, detail = ded(cls, b, vn)
+                    if verdict == "unstable":
+                        ctx.report("c01:decode-encode-decode-unstable:%s" % name,
+                                   "%s under KMIP %s accepts a child sequence (%s) and decode-encode-decode is not "
+                                   "stable: %s" % (name, VNUM[vn], d, detail),
+                                   {"kind": "struct-bytes", "class": name, "version": vn, "hex": b.hex()})
+    ctx.coverage["schema_gen_search"] = {"table_differences": [{"class": a, "fields": b} for a, b in rows][:20],
+                                         "classes_searched": suspects, "monitor_evaluations": n}
+    return n
